@@ -21,6 +21,7 @@ CONFIGS = [  # (name, settings, role)
     ("chol0_pc3", {"mc": 0, "cg_tol": "tight", "min_pc": 0, "max_pc": 3, "num_trace": 2}, "side"),
     ("chol0_lq2", {"mc": 0, "cg_tol": "tight", "max_lq": 2, "num_trace": 2}, "side"),
     ("default_lin32", {"linalg_f32": True}, "side"),
+    ("chol0_memeff", {"mc": 0, "cg_tol": "tight", "memeff": True, "num_trace": 2}, "side"),
 ]
 FULL_COMBOS = ([("none", True, True)] + [(rk, ld, red) for rk in ("vec", "mat") for ld in (True, False) for red in (True, False)]
                + [("mat1", True, False), ("mat1", False, True)])
@@ -109,7 +110,7 @@ def _iql_checks(H, rec, c, label, make, D, kap, cfgname, cfg, combos, tier, hist
                     # here: finite, and within a crude 6-sigma style envelope so that a gross error shows up even here
                     rec.check(f"logdet_stochastic_finite/{c.name}", lab, bool(torch.isfinite(ld).all()), "non-finite stochastic log-determinant")
                 else:
-                    tol = (H.TAU_LANCZOS * max(1.0, kap / 1e2) if used_lanczos else tau) * max(4.0, N)
+                    tol = (H.tau_lanczos(dt, kap) if used_lanczos else tau) * max(4.0, N)
                     err = float(((ld.to(f64) - ld_exact).abs() / (1.0 + ld_exact.abs())).max())
                     rec.check(f"logdet/{c.name}", lab, err <= tol, f"deterministic path: |logdet - dense|/(1+|dense|) = {err:.3e} > {tol:.1e} (kappa={kap:.1e}, log={sorted(lc.algos)})")
                 # documented selection for the log-determinant: Cholesky iff fast log_prob is off or N <= max_cholesky_size
@@ -140,7 +141,7 @@ def _iql_checks(H, rec, c, label, make, D, kap, cfgname, cfg, combos, tier, hist
                     else:
                         rec.check(f"inv_quad/{c.name}", lab, err <= bound, f"CG path: relative error of the quadratic form {err:.3e} > {bound:.1e}")
                 else:
-                    tol = (H.TAU_LANCZOS * max(1.0, kap / 1e2) * kap if used_lanczos else 8 * tau * max(1.0, kap))
+                    tol = (H.tau_lanczos(dt, kap) * kap if used_lanczos else 8 * tau * max(1.0, kap))
                     rec.check(f"inv_quad/{c.name}", lab, err <= min(tol, 0.3), f"deterministic path: relative error of tr(R^T A^-1 R) {err:.3e} > {tol:.1e} (kappa={kap:.1e}, log={sorted(lc.algos)})")
         elif R is None and entry in ("method", "functional"):
             rec.check(f"placeholder/{c.name}", lab, _placeholder_ok(torch, iq), f"inv_quad not requested but got {iq!r}"[:200])
@@ -165,14 +166,12 @@ def rtc_iql(case_names, tier):
                 continue
             if cfg.get("linalg_f32") and kap > 1e3:
                 continue
-            if not quick:
-                combos = FULL_COMBOS
-            elif role == "full":
-                combos = FULL_COMBOS if cfgname == "default" else FULL_COMBOS_CG
+            if role == "full":
+                combos = FULL_COMBOS if (cfgname == "default" or not quick) else FULL_COMBOS_CG
             else:
-                if (k + j) % 2:
+                if quick and (k + j) % 2:
                     continue
-                combos = SIDE_COMBOS
+                combos = SIDE_COMBOS if quick else SIDE_COMBOS + [("vec", True, False), ("mat1", False, True)]
             _iql_checks(H, rec, c, label, make, D, kap, cfgname, cfg, combos, tier)
     return rec.obligations()
 
@@ -224,10 +223,32 @@ def rtc_entries_histories(case_names, tier):
                         if "cg" in lc.algos:
                             good = err <= min(0.3, max(bound, 1e-3))
                         elif "lanczos" in lc.algos:
-                            good = err <= min(0.3, H.TAU_LANCZOS * max(1.0, kap / 1e2) * kap)
+                            good = err <= min(0.3, H.tau_lanczos(dt, kap) * kap)
                         else:
                             good = err <= min(0.3, 8 * H.tau_direct(dt, kap, N) * max(1.0, kap))
                     rec.check(f"inv_quad_broadcast/{c.name}", lab, good, f"inv_quad with broadcasting rhs: shape {tuple(iq.shape) if torch.is_tensor(iq) else None} expected {tuple(e.shape)} or value differs")
+    return rec.obligations()
+
+
+def rtc_default_dtype(case_names, tier):
+    """torch default dtype float64 with float32 operators (the converse is what every other unit runs)"""
+    from contracts.rtc_common import Recorder
+    from contracts.rtc_C04 import helpers
+    H = helpers()
+    torch = H.torch
+    rec = Recorder(PID)
+    old = torch.get_default_dtype()
+    try:
+        torch.set_default_dtype(torch.float64)
+        cb = [(torch.float32, (), 4), (torch.float32, (2,), 2)] + ([] if tier == "quick" else [(torch.float32, (2, 3), 3)])
+        for label, c, dt, batch, n, make, D, kap in _instances(H, rec, tier, case_names, combos_=cb):
+            N = D.shape[-1]
+            for cfgname, cfg in (("default", {}), ("chol0", {"mc": 0, "cg_tol": "tight", "num_trace": 3})):
+                if not H.expect_direct(cfg, N, "log_prob") and not getattr(c, "cg", True):
+                    continue
+                _iql_checks(H, rec, c, label + "|default=float64", make, D, kap, cfgname, cfg, SIDE_COMBOS + [("mat", True, False)], tier)
+    finally:
+        torch.set_default_dtype(old)
     return rec.obligations()
 
 
@@ -321,7 +342,7 @@ def rtc_slq(case_names, tier):
     if quick:
         cb = [(f64, (), 4), (f64, (2,), 6), (f64, (2, 3), 2), (f64, (1,), 1), (torch.float32, (), 6), (torch.float32, (2,), 2), (f64, (), 2), (torch.float32, (1,), 4)]
     else:
-        cb = H.combos("thorough")
+        cb = H.combos("thorough", sizes=[1, 2, 3, 4, 6, 9])
     deterministic = set()
     for label, c, dt, batch, n, make, D, kap in _instances(H, rec, tier, case_names, combos_=cb):
         if not getattr(c, "cg", True) or kap > 2e4:
@@ -437,6 +458,7 @@ def rtc_units(tier):
         us.append(Unit(f"C05/rtc/entries_histories[{ch[0]}..{ch[-1]}]", mod, "rtc_entries_histories", (ch, tier), engine="rtc", timeout_s=1500))
     for ch in _chunks(ALL_NAMES, 24):
         us.append(Unit(f"C05/rtc/slq[{ch[0]}..{ch[-1]}]", mod, "rtc_slq", (ch, tier), engine="rtc", timeout_s=1500))
+    us.append(Unit("C05/rtc/default_dtype", mod, "rtc_default_dtype", (ALL_NAMES, tier), engine="rtc", timeout_s=1500))
     return us
 
 
@@ -455,8 +477,8 @@ RTC_META = {
         "because the identity holds for any SPD P",
         "skip_logdet_forward: only the shape of the log-determinant is contracted",
     ],
-    "families": "28 PSD zoo + 42 local PSD cases x dtypes x batch shapes {(),(2,),(1,),(2,3)} x sizes {1,2,4,6} x 10 settings combinations "
+    "families": "28 PSD zoo + 42 local PSD cases x dtypes x batch shapes {(),(2,),(1,),(2,3)} x sizes {1,2,4,6} x 11 settings combinations "
                 "(max_cholesky_size 0/N-1/N/default, fast log_prob/solves, num_trace_samples 1..5, max_lanczos_quadrature_iterations 2/3/N/20, "
-                "skip_logdet_forward, preconditioner size 0/2/3/15, linalg dtypes) x rhs {none, vector, matrix, 1 column} x logdet {T,F} x reduce {T,F}; "
-                "entry points logdet / torch.logdet / inv_quad / functional; broadcasting rhs for inv_quad; histories (cached root / cholesky / solve / logdet).",
+                "skip_logdet_forward, memory_efficient, preconditioner size 0/2/3/15, linalg dtypes) x rhs {none, vector, matrix, 1 column} x logdet {T,F} x reduce {T,F}; "
+                "entry points logdet / torch.logdet / inv_quad / functional; broadcasting rhs for inv_quad; histories (cached root / cholesky / solve / logdet); default dtype float64 with float32 operators.",
 }
